@@ -101,6 +101,72 @@ func c19Prefix(a *An) {
 	}
 }
 
+// isEventNameField: v reads the Name field of an Event value (before any resolution through what was stored there).
+func isEventNameField(a *An, c *Ctx, v ssa.Value) bool {
+	for i := 0; i < 4; i++ {
+		switch x := stripConv(v).(type) {
+		case *ssa.UnOp:
+			if fa, ok := x.X.(*ssa.FieldAddr); ok {
+				return fieldName(fa.X.Type(), fa.Field) == "Name" && types.Identical(deref(fa.X.Type()), a.Ro.Event)
+			}
+			return false
+		case *ssa.Field:
+			return fieldName(x.X.Type(), x.Field) == "Name" && types.Identical(x.X.Type(), a.Ro.Event)
+		case *ssa.Parameter, *ssa.FreeVar:
+			if b, ok := c.Bind[x]; ok && b.Val != nil {
+				v, c = b.Val, b.Ctx
+				continue
+			}
+			return false
+		default:
+			return false
+		}
+	}
+	return false
+}
+
+// c19Suffix: a path asks for a recursive watch exactly when its last element is "...": the function that splits the
+// request (string -> string, bool) answers true only under `filepath.Base(p) == "..."` and then yields filepath.Dir(p).
+func c19Suffix(a *An) {
+	n := 0
+	for _, fn := range a.P.srcFuncs(a.P.Main) {
+		sig := fn.Signature
+		if sig.Recv() != nil || sig.Params().Len() != 1 || sig.Results().Len() != 2 || !isString(sig.Params().At(0).Type()) ||
+			!isString(sig.Results().At(0).Type()) || !isBoolType(sig.Results().At(1).Type()) {
+			continue
+		}
+		w := a.E.Walk(fn, WalkOpts{})
+		for _, v := range w.Visits {
+			r, ok := v.Instr.(*ssa.Return)
+			if !ok || v.Ctx.Parent != nil {
+				continue
+			}
+			for _, e := range valueEdges(v.Ctx, r.Results[1], v.Cond) {
+				k, isK := e.V.(*ssa.Const)
+				if !isK || k.Value == nil || k.Value.String() != "true" {
+					continue
+				}
+				n++
+				byBase, bad := e.Cond.everyConj(func(c Conj) bool {
+					return c.has(func(l Lit) bool {
+						return l.A.Kind == AkCmp && !l.Neg && l.A.Op == "==" && l.A.K == `c:"..."` && strings.Contains(stripIDs(l.A.Subj), "path/filepath.Base(")
+					})
+				})
+				p0 := stripIDs(v.Ctx.path(r.Results[0]))
+				okDir := strings.Contains(p0, "path/filepath.Dir(")
+				wit := "true under filepath.Base(p) == \"...\", yielding " + tail(p0, 80)
+				if !byBase {
+					wit = "a recursive request is recognised under " + stripIDs(bad.String())
+				}
+				a.R.ob("C19.1", "recursive-request@"+fn.Name(), "a path requests a recursive watch exactly when its last element is \"...\" (not when it merely ends in three dots), and the watch is set on its parent", a.P.instrPos(r), byBase && okDir, wit)
+			}
+		}
+	}
+	if n == 0 {
+		a.R.fail("anchor unresolved: the function that recognises a recursive request (string -> string, bool)")
+	}
+}
+
 func runC19(p *Program, e *Engine, r *Result, tier string) {
 	a := newAn(p, e, r, false) // folding off
 	if a == nil {
@@ -113,6 +179,7 @@ func runC19(p *Program, e *Engine, r *Result, tier string) {
 	}
 	ro := a.Ro
 	c19Prefix(a)
+	c19Suffix(a)
 	// (2) directory Create under a recursive watch registers the new directory
 	_, hv, hctx := handlerVisits(a, df)
 	if hctx == nil {
@@ -170,7 +237,7 @@ func runC19(p *Program, e *Engine, r *Result, tier string) {
 						recLit = &ll
 					case l.A.Kind == AkBit && l.A.Bits == isdir && !l.Neg:
 						dirLit = &ll
-					case l.A.Kind == AkBit && l.A.Bits == opBy["Create"] && strings.HasSuffix(l.A.Subj, ".Op") && !l.Neg:
+					case l.A.Kind == AkBit && l.A.Bits == opBy["Create"] && isOpSubj(l.A) && !l.Neg:
 						crLit = &ll
 					}
 				}
@@ -192,7 +259,7 @@ func runC19(p *Program, e *Engine, r *Result, tier string) {
 			// arguments: the event's name, recursive flag true
 			nameOK, recOK := false, false
 			for _, arg := range call.Call.Args {
-				if isString(arg.Type()) && strings.HasSuffix(stripIDs(v.Ctx.path(arg)), ".Name") {
+				if isString(arg.Type()) && (strings.HasSuffix(stripIDs(v.Ctx.path(arg)), ".Name") || isEventNameField(a, v.Ctx, arg)) {
 					nameOK = true
 				}
 				if isBoolType(arg.Type()) {
